@@ -23,7 +23,7 @@ from . import full_common as fc
 ID = "C36"
 LEVEL = "exploration"
 BUDGET = {"quick": 30, "thorough": 360}
-FLOOR = {"quick": 30, "thorough": 60}
+FLOOR = {"quick": 10, "thorough": 20}
 RULE = ("70% targeted time-function programs (templates x timestamps across 1970-2100 incl. DST transition "
         "instants x formats with/without zone directives x explicit timezone arguments), 30% generated "
         "programs with arbitrary deterministic stdlib calls; each under 5 timezones. Non-trivial: program "
